@@ -145,6 +145,12 @@ pub fn model_cases(r: &mut Rng, n: usize) -> Vec<Case> {
                 &format!("{}{}{}", lit(lo), if inc { "..=" } else { ".." }, lit(hi)), "i", "_i", ""));
         }
     }
+    // ---- ranges above MAX_RANGE_SIZE (10^7 elements): TooLarge on both sides (the cap itself would need 10^7 constraints)
+    for (lo, hi, inc) in [(0i64, 10_000_001i64, false), (0, 10_000_000, true), (-5_000_000, 5_000_001, false), (1, 10_000_002, false), (0, 100_000_000_000, false), (-9_000_000_000, 9_000_000_000, true)] {
+        let mut c = iter_case("range:above-cap", format!("range {} {} {}", lo, hi, inc), &format!("{}{}{}", lit(lo), if inc { "..=" } else { ".." }, lit(hi)), "i", "_i", "");
+        c.nontrivial = true;
+        out.push(c);
+    }
     // ---- enumerate / zip / set functions over literal arrays
     for _ in 0..n / 8 {
         let a: Vec<i64> = (0..r.below(5)).map(|_| r.range(0, 9)).collect();
@@ -264,6 +270,16 @@ impl<'a> FragGen<'a> {
     /// small integer expressions (values stay inside the declared index ranges)
     fn ce(&mut self, bound: &[String], d: u32) -> Ce {
         if d == 0 || self.r.chance(1, 2) { return self.leaf(bound); }
+        // now and then at the i64 limits: checked arithmetic is the Overflow error, not a wrapped index
+        if self.r.chance(1, 40) {
+            let l = Box::new(self.leaf(bound));
+            return match self.r.below(4) {
+                0 => Ce::Add(l, Box::new(Ce::Lit(i64::MAX))),
+                1 => Ce::Mul(Box::new(Ce::Lit(i64::MAX / 2 + 1)), Box::new(Ce::Lit(2))),
+                2 => Ce::Sub(Box::new(Ce::Lit(-i64::MAX)), Box::new(Ce::Add(l, Box::new(Ce::Lit(2))))),
+                _ => Ce::Sub(Box::new(Ce::Add(l, Box::new(Ce::Lit(i64::MAX - 1)))), Box::new(Ce::Lit(i64::MAX - 1))),
+            };
+        }
         let a = Box::new(self.leaf(bound));
         match self.r.below(3) { 0 => Ce::Add(a, Box::new(self.leaf(bound))), 1 => Ce::Sub(a, Box::new(self.leaf(bound))), _ => Ce::Mul(a, Box::new(Ce::Lit(self.r.range(0, 2)))) }
     }
